@@ -9,7 +9,7 @@ Qed.
 
 Theorem C12_terminates : C12_statement.
 Proof.
-  intros walk s. unfold P12, close. rewrite C12_cancel_all. cbn [Nat.add]. cbn [r_returns r_seconds r_left r_writer_closed orb andb].
+  intros walk late s. unfold P12, close. rewrite C12_cancel_all. cbn [Nat.add]. cbn [r_returns r_seconds r_left r_writer_closed orb andb].
   rewrite !orb_true_r. cbn [andb]. rewrite Nat.eqb_refl, !andb_true_r.
   unfold drain_bound, reader_timeout, writer_timeout.
   destruct (s_connected s && negb (Nat.eqb (s_queued s) 0 && Nat.eqb (s_unread s) 0)); [|reflexivity].
@@ -18,14 +18,17 @@ Qed.
 
 (* each pinned behaviour violates the property in some reachable state *)
 Theorem C12_pinned_join_refuted :          (* disconnected, one queued request *)
-  P12 (close false true true true [] (mkCS false 1 0 false true 0 [] [])) = false.
+  P12 (close false true true true true [] 0 (mkCS false 1 0 false true 0 [] [])) = false.
 Proof. vm_compute. reflexivity. Qed.
 Theorem C12_pinned_disconnected_refuted :  (* closing while disconnected leaves device tasks *)
-  P12 (close true false true true [] (mkCS false 0 0 false true 2 [] [])) = false.
+  P12 (close true false true true true [] 0 (mkCS false 0 0 false true 2 [] [])) = false.
 Proof. vm_compute. reflexivity. Qed.
 Theorem C12_pinned_merge_refuted :         (* mixer 0 and thermostat 0 *)
-  P12 (close true true false true [] (mkCS true 0 0 false false 0 [(0, 1); (4, 1)]%nat [(0, 1)]%nat)) = false.
+  P12 (close true true false true true [] 0 (mkCS true 0 0 false false 0 [(0, 1); (4, 1)]%nat [(0, 1)]%nat)) = false.
 Proof. vm_compute. reflexivity. Qed.
 Theorem C12_pinned_cancel_refuted :        (* a finished reconnect attempt met before its successor *)
-  P12 (close true true true false [false; true] (mkCS false 0 0 false true 0 [] [])) = false.
+  P12 (close true true true false true [false; true] 0 (mkCS false 0 0 false true 0 [] [])) = false.
+Proof. vm_compute. reflexivity. Qed.
+Theorem C12_pinned_recancel_refuted :      (* a loss detected as close() is issued schedules one more reconnect attempt *)
+  P12 (close true true true true false [] 1 (mkCS true 1 0 false true 0 [] [])) = false.
 Proof. vm_compute. reflexivity. Qed.
